@@ -165,7 +165,7 @@ PROPS = {
         'engine': 'sequence',
         'rule': 'L: full lattice scalar x DIM x grid x origin point x end point, points on a sub-cell lattice (border, '
                 'quarter, centre) of cells spread over the grid incl. first/last; each cast of a fresh caster checked '
-                'against the geometric definition. S: every sequence of the 30 caster operations to the stated depth on '
+                'against the geometric definition. S: every sequence of the 32 caster operations (incl. setGridIndexMapping between two grids) to the stated depth on '
                 'one caster; each cast with an explicit end point compared with a fresh caster and with the geometric '
                 'oracle. states = distinct private caster states seen, transitions = operations executed. non-trivial = '
                 'ray longer than 2 cells or axis-aligned/diagonal/coincident (L); cast that is not the first operation (S).',
@@ -173,7 +173,7 @@ PROPS = {
                         'operations that the interface gives no meaning to (setEndPoint / cast(e) before any origin was set) are not in the alphabet'],
         'tiers': {'quick': {'deadline': 400, 'case_timeout': 120}, 'thorough': {'deadline': 3300, 'case_timeout': 900}},
         'technique': 'exhaustive enumeration of caster operation sequences to a depth with a fresh-object differential oracle, plus an exhaustive origin/end/grid lattice with a geometric oracle',
-        'level_text': 'every operation sequence up to depth 3 (thorough 4) over a 30-operation alphabet, on all four '
+        'level_text': 'every operation sequence up to depth 3 (thorough 4) over a 32-operation alphabet, on all four '
                       'instantiations, and every origin/end pair of a boundary-dense point lattice on grids up to 2001 '
                       'cells per axis; each cast checked cell by cell against the segment',
         'level_note': 'finite point lattice; rounding tolerance grows with ray length (for float rays of thousands of cells it approaches the cell size; see metrics_max)',
